@@ -1391,6 +1391,68 @@ func (ex *extractor) writePins(path string) {
 		p := ex.pins[q]
 		fmt.Fprintf(&b, "  (%q, %v, %v)%s\n", q, p[0], p[1], sep)
 	}
+	b.WriteString("]\n\n/-- every call of `rootAddRef` in the package: (enclosing function, how its result is used:\n    \"paired\" = `x := _.rootAddRef()` directly followed, in that function, by `defer _.rootDecRef(x)`;\n    \"kept\" = stored into a field / map / composite literal, i.e. the pin is handed to another owner) -/\n")
+	b.WriteString("def pinSites : List (String × String) := [\n")
+	var ps []string
+	for q, fd := range ex.funcs {
+		if fd.Body == nil || q == "Collection.rootAddRef" {
+			continue
+		}
+		// statements `x := recv.rootAddRef()` whose NEXT statement in the same block is `defer recv.rootDecRef(x)`
+		paired := map[token.Pos]bool{}
+		ast.Inspect(fd.Body, func(n ast.Node) bool {
+			blk, ok := n.(*ast.BlockStmt)
+			if !ok {
+				return true
+			}
+			for i, st := range blk.List {
+				as, ok := st.(*ast.AssignStmt)
+				if !ok || len(as.Lhs) != 1 || len(as.Rhs) != 1 {
+					continue
+				}
+				c, ok := as.Rhs[0].(*ast.CallExpr)
+				if !ok {
+					continue
+				}
+				sel, ok := c.Fun.(*ast.SelectorExpr)
+				if !ok || sel.Sel.Name != "rootAddRef" {
+					continue
+				}
+				id, ok := as.Lhs[0].(*ast.Ident)
+				if !ok || i+1 >= len(blk.List) {
+					continue
+				}
+				if d, ok := blk.List[i+1].(*ast.DeferStmt); ok {
+					if ds, ok := d.Call.Fun.(*ast.SelectorExpr); ok && ds.Sel.Name == "rootDecRef" && len(d.Call.Args) == 1 {
+						if a, ok := d.Call.Args[0].(*ast.Ident); ok && a.Name == id.Name {
+							paired[c.Pos()] = true
+						}
+					}
+				}
+			}
+			return true
+		})
+		ast.Inspect(fd.Body, func(n ast.Node) bool {
+			if c, ok := n.(*ast.CallExpr); ok {
+				if sel, ok := c.Fun.(*ast.SelectorExpr); ok && sel.Sel.Name == "rootAddRef" {
+					how := "kept"
+					if paired[c.Pos()] {
+						how = "paired"
+					}
+					ps = append(ps, fmt.Sprintf("(%q, %q)", q, how))
+				}
+			}
+			return true
+		})
+	}
+	sort.Strings(ps)
+	for i, r := range ps {
+		sep := ","
+		if i == len(ps)-1 {
+			sep = ""
+		}
+		b.WriteString("  " + r + sep + "\n")
+	}
 	b.WriteString("]\n\nend Gkv.Gen.Pins\n")
 	if err := os.WriteFile(path, []byte(b.String()), 0644); err != nil {
 		fail("%v", err)
